@@ -29,6 +29,7 @@ func init() {
 			"(b) seeded: kinds (documented ones, and nil / typed-nil / non-pointer / foreign / pre-populated destinations) x contents (empty, ASCII, whitespace-edged, all 256 byte values, invalid UTF-8, buffer-boundary sizes, 64 KiB..1 MiB, JSON number literals beyond float64) x scripts (whole, 1-byte, random chunks, runs of <= 50 zero-length reads, data together with EOF, fault at a random offset). " +
 			"(c) refusal paths, in the sweep and seeded: no reader / no writer at all for the byte-stream and text codecs, sources no producer documents (nil, typed-nil pointers, scalars, maps, channels, functions, arrays, structs and slices JSON refuses) into every writer kind, on fresh and on used producer instances; " +
 			"(d) 2..8 goroutines calling ONE codec instance at the same time, each with its own content (up to 64 KiB), streams and destination, the scripted streams yielding the processor before every read and write. " +
+			"(e) sources that implement SEVERAL of the interfaces the byte-stream and text producers look for (io.WriterTo, io.Reader, io.ReadCloser, encoding.BinaryMarshaler, encoding.TextMarshaler, error, fmt.Stringer): every subset of them as a struct value and as a pointer, each interface with a rendering of its own, and time.Time, *time.Time, *big.Float, *big.Int, *url.URL; produced, then consumed into the matching destination (a pointer to the same type, whose UnmarshalBinary / UnmarshalText accepts its own marshaler's form only; else *[]byte / *string), swept and seeded with chunked and faulty streams and every writer kind. " +
 			"Every case drives the real Consume/Produce on scripted streams that count reads, writes and closes. " +
 			"non-trivial = every case whose kind belongs to the codec's table; distinct by (codec, direction, kind, pre-populated?, stream behaviour class, payload behaviour class, closing option)",
 		Assumptions: []string{
@@ -47,6 +48,7 @@ func init() {
 			"JSON/XML/YAML round-trip values: valid UTF-8 only (XML: XML-1.0 characters; YAML: printable text), finite floats with a fractional part, non-empty collections (nil versus empty is not distinguished), interface{} members hold only the types the decoder itself produces (JSON: json.Number for numbers)",
 			"a fault delivered after the decoder already holds a complete document may be ignored by JSON/XML/YAML consumers: only 'nil error with a value different from the full one' is a shorter success",
 			"struct and slice sources of the byte-stream and text producers: the bytes written must be JSON that decodes to an equal value (only for valid UTF-8 text)",
+			"a source with several of the producers' interfaces: the byte-stream producer owes the rendering of the first interface in the order its doc comment gives (io.WriterTo, io.Reader, encoding.BinaryMarshaler, error, then the kind); the text producer documents no order, and the round trip decides: a value that has MarshalText must come back equal from TextConsumer in a pointer to its own type (UnmarshalText is the inverse of MarshalText, not of String or Error); a value without MarshalText that is an error and a Stringer may be written as either; a value with none of the codec's interfaces is a struct (JSON: success and a non-empty output only)",
 			"short writes without error (a violation of io.Writer's contract) are not scripted",
 			"a stream (or closable source payload) that is read or written after the codec closed it is a violation whatever the outcome: scripted streams fail once closed, as files and HTTP bodies do",
 			"the byte-stream and text consumers are also driven from a reader without Close and from *bytes.Buffer / *bytes.Reader / *strings.Reader; what they stored must survive the caller overwriting its source buffer, and what a producer wrote must survive the caller overwriting its []byte source",
@@ -328,6 +330,8 @@ func runCase(m *mon.M, c *Case) {
 		runConcurrent(m, c)
 	case c.Codec == "discard":
 		runDiscard(m, c)
+	case (c.Codec == "bytestream" || c.Codec == "text") && c.Dir == "roundtrip":
+		runByteRoundTrip(m, c)
 	case (c.Codec == "bytestream" || c.Codec == "text") && c.Dir == "consume":
 		runByteConsume(m, c)
 	case (c.Codec == "bytestream" || c.Codec == "text") && c.Dir == "produce":
